@@ -135,16 +135,26 @@ def opt_strategy():
                                   "t": st.sampled_from([0, 1]), "c": st.sampled_from([0, 0, 1])})
 
 
-def draw_cases(seed, n, cfg, nopts):
+def draw_opts(seed, n, nopts):
     out = []
 
     @hseed(seed)
     @settings(max_examples=n, database=None, deadline=None, phases=[Phase.generate], suppress_health_check=list(HealthCheck))
-    @given(explang.schemas(cfg), st.lists(opt_strategy(), min_size=nopts, max_size=nopts))
-    def collect(s, opts):
-        out.append((s, opts))
+    @given(st.lists(opt_strategy(), min_size=nopts, max_size=nopts))
+    def collect(opts):
+        out.append(opts)
     collect()
+    while len(out) < n:           # the engine stops early when it has exhausted a small space; never the case here
+        out.append(out[len(out) % max(1, len(out))] if out else [{"l": None, "t": 0, "c": 0}])
     return out
+
+
+def draw_cases(seed, n, cfg, nopts):
+    """n (schema, option sets) pairs: schemas and option sets are two separate Hypothesis runs (drawn together, the
+    engine's mutation step keeps re-using one schema while it varies the options)"""
+    ss = explang.draw_many(common.sub_seed(seed, "schemas"), n, cfg)
+    oo = draw_opts(common.sub_seed(seed, "opts"), len(ss), nopts)
+    return list(zip(ss, oo))
 
 
 def _gen_chunk(arg):
@@ -423,15 +433,22 @@ def main(tier, seed):
     cfg = {"avoid": sorted(avoid)}
 
     # ---------------- generated schemas
-    # number of Hypothesis examples drawn; roughly a third of them are distinct schemas (the engine's mutation step
-    # often re-derives the same text; a repeated schema contributes its option sets to the first occurrence)
-    n_schemas, nopts = (2400, 3) if tier == "quick" else (18000, 6)
+    # number of Hypothesis examples drawn. 7 of 8 chunks use the generator's "fast" mode (one Hypothesis draw seeds all
+    # choices of a file: independent examples), 1 of 8 the pure mode (every choice a Hypothesis draw; the engine's
+    # mutation step then yields families of similar files, repeated texts are merged)
+    n_schemas, nopts = (1600, 3) if tier == "quick" else (12000, 6)
     if os.environ.get("C07_N"):
         n_schemas = int(os.environ["C07_N"])
     nchunks = 32 if tier == "quick" else 96
     per = (n_schemas + nchunks - 1) // nchunks
     t0 = time.time()
-    chunks = common.pmap(common.guarded(_gen_chunk), [(common.sub_seed(seed, PROP, "gen", i), per, cfg, nopts) for i in range(nchunks)])
+    chunk_args = []
+    for i in range(nchunks):
+        c2 = dict(cfg)
+        if i % 8 != 7:
+            c2["fast"] = True
+        chunk_args.append((common.sub_seed(seed, PROP, "gen", i), per if c2.get("fast") else max(4, per // 3), c2, nopts))
+    chunks = common.pmap(common.guarded(_gen_chunk), chunk_args)
     cases = []
     seen = {}
     for status, c in chunks:
